@@ -297,10 +297,48 @@ pub fn expr_program(rng: &mut Rng, depth: u32, mutate: bool) -> (ExprProgram, Sc
     let (mut sc, mut text) = operand_scope(rng);
     if mutate { sc.sabotage_at = Some(rng.range(1, 1 + 3 * depth as u64)); }
     let target = if rng.chance(1, 8) { W::Unl } else { W::Bits(*rng.pick(&WIDTHS)) };
-    let e = gen(rng, &mut sc, target, depth);
+    // where the expression is used: assigned to a wire, or (constants only) as a constant's definition or a register's default
+    let ctx = rng.below(8);
+    if ctx <= 1 { sc.wires.retain(|x| !is_wire_name(&x.0)); }
+    let structural = mutate && ctx > 1 && rng.chance(1, 3);
+    if structural { sc.sabotage_at = None; }
+    let mut e = gen(rng, &mut sc, target, depth);
+    if structural {
+        // faults in the shape of a case expression or a boolean operator (each is what one strictness option is about)
+        sc.hit("mutated-structure");
+        let wires: Vec<(String, W)> = sc.wires.iter().filter(|x| is_wire_name(&x.0)).cloned().collect();
+        let cond = |rng: &mut Rng| -> GExpr {
+            let (n, _) = rng.pick(&wires).clone();
+            GExpr::Bin("==", Box::new(GExpr::Name(n)), Box::new(GExpr::Const(rng.below(2) as u128, W::Unl, 0)))
+        };
+        let one = || GExpr::Const(1, W::Unl, 0);
+        let other = gen(rng, &mut sc, target, 1);
+        let third = gen(rng, &mut sc, target, 0);
+        e = match rng.below(6) {
+            0 => GExpr::Mux(vec![(cond(rng), e), (one(), other), (one(), third)]),              // two defaults
+            1 => GExpr::Mux(vec![(cond(rng), e), (one(), other), (cond(rng), third)]),          // an arm after the default
+            2 => GExpr::Mux(vec![(cond(rng), e), (cond(rng), other)]),                          // no default
+            3 => GExpr::Mux(vec![(one(), e), (one(), other)]),                                  // default first, then another
+            4 => GExpr::Mux(vec![]),                                                            // no arm at all
+            _ => {
+                // a boolean operator with an operand that is zero, two or many bits wide
+                let (n, w) = rng.pick(&wires).clone();
+                let lo = match w { W::Bits(k) => rng.below(k as u64 + 1) as u8, W::Unl => 0 };
+                let span = *rng.pick(&[0u8, 0, 2, 1]);
+                let hi = match w { W::Bits(k) => std::cmp::min(k, lo.saturating_add(span)), W::Unl => lo + span };
+                let odd = GExpr::Slice(Box::new(GExpr::Name(n)), lo, hi);
+                let b = GExpr::Bin(*rng.pick(&LOGIC), Box::new(odd), Box::new(cond(rng)));
+                if rng.chance(1, 2) { b } else { GExpr::Mux(vec![(b, e), (one(), other)]) }
+            }
+        };
+    }
     // declared width of the target wire: the expression's width (an unsized expression may go anywhere)
     let decl = match target { W::Bits(n) => n, W::Unl => *rng.pick(&WIDTHS) };
-    text.push_str(&format!("wire t:{};\nt = {};\npc = 0; Stat = STAT_HLT;\n", decl, render(&e)));
+    match ctx {
+        0 => text.push_str(&format!("const KT = {};\nwire t:{};\nt = KT;\npc = 0; Stat = STAT_HLT;\n", render(&e), decl)),
+        1 => text.push_str(&format!("register tT {{ t:{} = {}; }}\nt_t = T_t;\npc = 0; Stat = STAT_HLT;\n", decl, render(&e))),
+        _ => text.push_str(&format!("wire t:{};\nt = {};\npc = 0; Stat = STAT_HLT;\n", decl, render(&e))),
+    }
     (ExprProgram { text, target }, sc)
 }
 
